@@ -164,7 +164,7 @@ class Instance:
         if is_annotated(self.type):
             self.annotations = getattr(self.type, "__metadata__", [])
             self.type = get_args(self.type)[0]
-            self.origin_type = get_type_origin(self.type)
+            self.update_type(self.type)
 
     def update_type(self, new_type: Type) -> None:
         if self.__owner_builder:
